@@ -52,6 +52,23 @@ def call(pts, ts, unit=1.0, day=(2020, 6, 15), coarse=False, scale=1.0):
     else:
         tr = tk.mk_track_ms([p[0] for p in pts], [p[1] for p in pts], [float(k) for k in range(len(pts))], [int(round(t * unit * 1000)) for t in ts], day=day)
 
+    # state family: the timestamp OBJECTS were used in a time computation while they still carried a wrong date (the day
+    # before), which the caller then corrected in place, field by field
+    if unit == 1.0 and (len(pts) + sum(ts)) % 5 == 0:
+        e["hist"] = "dates corrected in place after a first use"
+        want = [(o.timestamp.year, o.timestamp.month, o.timestamp.day) for o in tr.getObsList()]
+        for o in tr.getObsList():
+            o.timestamp.day = 1 if o.timestamp.day > 1 else 2
+            o.timestamp.month = 3
+        try:
+            with core.quiet():
+                tr.duration()
+                [o.timestamp.toAbsTime() for o in tr.getObsList()]
+        except (Exception, SystemExit):
+            pass
+        for o, (yy, mm, dd) in zip(tr.getObsList(), want):
+            o.timestamp.year, o.timestamp.month, o.timestamp.day = yy, mm, dd
+
     def snap():
         return [[round(tr.getObs(k).position.getX() / scale * 1000), round(tr.getObs(k).position.getY() / scale * 1000),
                  round(tr.getObs(k).position.getZ() / scale * 1000), round(tr.getObs(k).timestamp.toAbsTime() * 1000) % 100000000] for k in range(tr.size())]
